@@ -577,7 +577,7 @@ def gen_e2e_request(rng, idx):
             hdrs.append(b"Content-Length: %d" % len(content))
             body = content
         elif ev == "method":
-            method = rng.choice([b"G(T", b"GET\x00", b"get", b"G\x7fT", b"M-SEARCH"])
+            method = rng.choice([b"G(T", b"GET\x00", b"get", b"G\x7fT", b"M-SEARCH", b"head", b"Head"])
         elif ev == "expect":
             hdrs.append(b"Expect: 100-continue")
             hdrs.append(b"Content-Length: %d" % len(content))
@@ -1154,6 +1154,10 @@ def oracle_e2e(case, obs):
                     break
                 hs = f["resp"]["headers"] if f["resp"] else []
                 k = _diagnose(hs, None, "downstream")
+                if m != b"HEAD" and m.upper() == b"HEAD":
+                    v.append({"key": "lowercase-head-response-bodiless", "what": f"flow {fi}: request method {m!r} is forwarded as is but its response is framed as a HEAD response (no body): {s[:80]!r}"})
+                    p, stop = None, True
+                    break
                 prev = flows[fi - 1]["resp"] if fi > 0 else None
                 if s.startswith(b"0\r\n\r\n") and prev and (prev["status"] in (204, 304) or 100 <= prev["status"] <= 199):
                     v.append({"key": "last-chunk-after-bodiless-response", "what": f"a {prev['status']} response with Transfer-Encoding: chunked is followed by a stray last-chunk on the client connection: {s[:60]!r}"})
@@ -1183,10 +1187,13 @@ def oracle_e2e(case, obs):
                "body": unhx(r["content"] or "")}
         got = {k: p[k] for k in exp}
         got["fields"] = [tuple(x) for x in got["fields"]]
-        bodiless = m == b"HEAD" or 100 <= r["status"] <= 199 or r["status"] in (204, 304)
+        bodiless = m.upper() == b"HEAD" or 100 <= r["status"] <= 199 or r["status"] in (204, 304)
         if bodiless:
             exp["body"] = b""
-        if got != exp:
+        if got != exp and m != b"HEAD" and m.upper() == b"HEAD":
+            v.append({"key": "lowercase-head-response-bodiless", "what": f"flow {fi}: request method {m!r} is forwarded as is but its response is framed as a HEAD response (no body)"})
+            stop = True
+        elif got != exp:
             k = _diagnose(r["headers"], None, "downstream")
             v.append({"key": k + "-desync", "what": f"flow {fi}: client-side bytes read as a response that differs from the recorded one: {got} vs {exp}"[:400]})
             stop = True
